@@ -440,6 +440,8 @@ class Translator:
             return out
         if d == "pow" and len(node.args) == 2:
             return self.power(node.args[0], node.args[1])
+        if d == "np.where" and len(node.args) == 3 and not node.keywords:
+            return IfE(self.cond(node.args[0]), self.expr(node.args[1]), self.expr(node.args[2]))
         if d is not None and d in self.locals and self.locals[d].startswith("fun"):
             return App(Var(d), [self.expr(a) for a in node.args])
         raise TranslationError(f"unmapped call {key or ast.unparse(node.func)!r} in {sp.path}")
